@@ -216,7 +216,7 @@ func body(all []opdef) func(x *harness.X) {
 		x.Vars["st"] = s
 		od := all[rt.Choose(len(all))]
 		s.op, s.poll = od.name, od.poll
-		s.mode = []string{"deadline", "cancel"}[rt.Choose(2)]
+		s.mode = []string{"deadline", "cancel", "cancel-far-deadline"}[rt.Choose(3)]
 		after := []time.Duration{3 * time.Second, 7 * time.Second}[rt.Choose(2)]
 		op := od.setup(x)
 		rt.Quiesce()
@@ -228,7 +228,12 @@ func body(all []opdef) func(x *harness.X) {
 			ctx, cancel = context.WithTimeout(context.Background(), after)
 			s.t0 = start + after
 		} else {
-			ctx, cancel = context.WithCancel(context.Background())
+			if s.mode == "cancel-far-deadline" {
+				// cancelled long before its own (far) deadline
+				ctx, cancel = context.WithTimeout(context.Background(), 40*time.Second)
+			} else {
+				ctx, cancel = context.WithCancel(context.Background())
+			}
 			go func() {
 				time.Sleep(after)
 				s.t0 = rt.Elapsed()
@@ -275,7 +280,7 @@ func final(x *harness.X, res *rt.Result) {
 	// (the statement asks for an error within the bound; that it also wraps the
 	// context's error is usual but not demanded - it is only logged)
 	allowed := time.Duration(0)
-	if s.mode == "cancel" {
+	if s.mode != "deadline" {
 		allowed = s.poll
 	}
 	if late := s.t1 - s.t0; late > allowed {
@@ -289,7 +294,7 @@ func main() {
 	harness.Main(harness.Check{
 		Property: "C15",
 		Level:    "model_checking",
-		Rule:     fmt.Sprintf("%d operation/transport/peer combinations (transport Send/Receive, in-process Accept, the four channel sends and ProcessCommand with a peer that consumes nothing, client FinishSession, server and client EstablishSession with a silent peer and with a server going silent after negotiation options, after the authentication request and after confirming tls) x {deadline, cancellation by another goroutine} x {3s, 7s}; one operation per execution; all schedules within the deviation bound (delay bounding); latency measured on the virtual clock, which only advances when every goroutine is blocked; distinct outcome = distinct observation log", len(all)),
+		Rule:     fmt.Sprintf("%d operation/transport/peer combinations (transport Send/Receive, in-process Accept, the four channel sends and ProcessCommand with a peer that consumes nothing, client FinishSession, server and client EstablishSession with a silent peer and with a server going silent after negotiation options, after the authentication request and after confirming tls) x {deadline, cancellation by another goroutine, cancellation of a context that also has a far deadline} x {3s, 7s}; one operation per execution; all schedules within the deviation bound (delay bounding); latency measured on the virtual clock, which only advances when every goroutine is blocked; distinct outcome = distinct observation log", len(all)),
 		Assume:   []string{"virtual-clock promptness: shows the return does not depend on any timer later than allowed, not wall-clock microseconds", "real TCP/WebSocket listeners' Accept and the WebSocket transport use OS sockets and are not explored (the repository's own tests cover their deadline case natively)"},
 		Scenarios: []harness.Scenario{
 			{Name: "isolated-ops", Opt: opt, Quick: 0, Thorough: 1, Prune: false, Body: body(all), Final: final},
